@@ -16,16 +16,16 @@ import (
 // goroutine picks, with the run's PRNG, which link delivers next and calls the destination's
 // HandleMessage. Faults are injected by the drop / hold hooks.
 type simNet struct {
-	mu        sync.Mutex
-	cond      *sync.Cond
-	nodes     map[uint16]tss.MpcParty
-	queues    map[[2]uint16][]*tss.IncMessage
-	sentCount map[uint16]int // messages sent so far, per source
-	log       []netEvent
-	drop      func(from, to uint16, m *tss.IncMessage, nthFromSource int) bool
-	onSend    func(from, to uint16, m *tss.IncMessage)
-	stopped   bool
-	wg        sync.WaitGroup
+	mu         sync.Mutex
+	cond       *sync.Cond
+	nodes      map[uint16]tss.MpcParty
+	queues     map[[2]uint16][]*tss.IncMessage
+	sentCount  map[uint16]int // messages sent so far, per source
+	log        []netEvent
+	drop       func(from, to uint16, m *tss.IncMessage, nthFromSource int) bool
+	onSend     func(from, to uint16, m *tss.IncMessage)
+	stopped    bool
+	wg         sync.WaitGroup
 	concurrent bool // one dispatcher goroutine per link instead of the single scheduler (race runs)
 }
 
